@@ -175,6 +175,22 @@ pub fn marks_of(v: &Value, out: &mut Vec<&'static str>) {
             if m.get("t").and_then(Value::as_str) == Some("ctl") && m.get("b").and_then(Value::as_u64) == Some(28) {
                 add(out, "ctl28");
             }
+            if m.get("t").and_then(Value::as_str) == Some("simple")
+                && m["as"].as_array().is_some_and(|a| a.is_empty())
+                && m["rs"].as_array().is_some_and(|a| !a.is_empty())
+            {
+                // redirections and a first word ending in `:` (printed first, it becomes the command name)
+                let w = &m["ws"][0]["w"];
+                let units = w.as_array().cloned().unwrap_or_default();
+                let last_colon = units.last().is_some_and(|u| {
+                    u["t"] == json!("lit") && u["s"].as_str().is_some_and(|s| s.ends_with(':'))
+                });
+                let long = units.len() > 1 || units.first().is_some_and(|u| u["s"].as_str().is_some_and(|s| s.chars().count() > 1));
+                let quoted = units.iter().any(|u| matches!(u["t"].as_str(), Some("bs" | "sq" | "dq" | "dsq")));
+                if last_colon && long && !quoted {
+                    add(out, "colon-word-after-redir");
+                }
+            }
             if m.get("t").and_then(Value::as_str) == Some("sub") {
                 // subshell whose body starts with a subshell: printed as `((`
                 let first = &m["body"][0]["ao"]["first"];
